@@ -76,6 +76,32 @@ fn main() {
                         play(&mut g, &mut rng, pol, 16, 0.25);
                     }
                 }
+                "focus" => {
+                    // two-ply probes around one intended first step (a push start or a step that may lead a
+                    // pull): parse, play that step if the engine offers it, observe the follow-up state and
+                    // every child of it
+                    let kind = round % 2;
+                    if let Some((c, gold, sq, d)) = focus_position(&mut rng, kind) {
+                        let mn = 2 + rng.below(40);
+                        if g.reset_parsed(&c, gold, mn, if kind == 0 { "focus-push" } else { "focus-pull" }) {
+                            let a = Action::Move(Square::from_index(sq as u8), d);
+                            let offered = guarded(|| g.top().valid_actions().contains(&a)).unwrap_or(false);
+                            if offered && g.step(&a) {
+                                let next = g.top().clone();
+                                // the follow-up state's lists are judged as they are; its children are
+                                // observed for one sample in five only (volume matters more here)
+                                let list = if rng.chance(0.2) { guarded(|| next.valid_actions_no_rep()) } else { Ok(Vec::new()) };
+                                if let Ok(list) = list {
+                                    for b in list.iter() {
+                                        if !g.probe(b) {
+                                            break;
+                                        }
+                                    }
+                                }
+                            }
+                        }
+                    }
+                }
                 "results" => {
                     // C04's position family, enumerated (not sampled): both sides to move x a Gold rabbit on
                     // each square of rank 8 or none x a Silver rabbit on each square of rank 1 or none x
